@@ -155,3 +155,83 @@ def unit3(plan, prop, sites):
         return
     items.append(vlib.verus_canary("canary_fallback3", "x: u64", []))
     plan.verus.append(VerusUnit("%s_fallback3" % prop.lower(), vlib.verus_file(items), fns, ["canary_fallback3"]))
+
+
+PRELUDE_ASSIGN = """
+pub struct FxA { pub sink: Value, pub source: Value, pub ixes: Vec<Value> }
+pub struct E {}
+pub enum Value { MutableReference(RefV), Plain(u64) }
+pub struct RefV { pub v: Box<Value> }
+impl RefV {
+  #[verifier::external_body]
+  pub fn borrow(&self) -> (r: &Value) ensures *r == *self.v { unimplemented!() }
+}
+impl Clone for Value {
+  #[verifier::external_body]
+  fn clone(&self) -> (r: Self) ensures r == *self { unimplemented!() }
+}
+#[verifier::external_body]
+pub fn clone_ixes(v: &Vec<Value>) -> (r: Vec<Value>) ensures r@ == v@ { unimplemented!() }
+pub open spec fn deref(v: Value) -> Value { match v { Value::MutableReference(r) => *r.v, other => other } }
+#[verifier::external_body]
+fn gen_a(sink: Value, source: Value, ixes: Vec<Value>) -> (r: Result<FxA, E>) ensures r matches Ok(f) ==> f.sink == sink && f.source == source && f.ixes@ == ixes@ { unimplemented!() }
+"""
+
+
+def unit_assign(plan, prop, sites):
+    """(F) the variable-reference fallback of the indexed (op-)assignment compilers: `match <scrutinee> { .. }` after the first attempt failed.  The scrutinee expression and every arm
+    whose pattern mentions Value::MutableReference are copied verbatim (callee renamed `gen_a`, `ixes.clone()` -> `clone_ixes(&ixes)` / `clone_ixes(ixes)`); contract: the kernel builder
+    receives (deref(sink), deref(source), ixes) -- in the callee's parameter order (sink, source, indices)"""
+    items, fns = [PRELUDE_ASSIGN], {}
+    for stem, rel, impl_rx, callee in sites:
+        name = "%s.fallback.%s" % (prop, stem)
+        try:
+            text = read_repo(rel)
+            m0 = find_code(text, impl_rx)
+            if not m0:
+                raise AnchorLost("site %s not found" % impl_rx)
+            blk_end = match_brace(text, text.index("{", m0.end() - 1))
+            blk = text[m0.start():blk_end]
+            found = None
+            for m in find_all_code(blk, r"\bmatch\s+([^{]+?)\s*\{"):
+                e = match_brace(blk, m.end() - 1)
+                body = blk[m.end():e - 1]
+                arms = [a for a in arms_of(body) if "Value::MutableReference" in a[1]]
+                if arms and not any("match" in a[2] and "Value::MutableReference" in a[2] for a in arms_of(body)):
+                    found = (m.group(1).strip(), arms)
+            if not found:
+                raise AnchorLost("no fallback match found in %s" % impl_rx)
+            scrut, arms = found
+            kept = []
+            for attrs, pat, expr in arms:
+                ex = expr.strip()
+                if ex.startswith("{") and ex.endswith("}"):
+                    ex = ex[1:-1].strip()
+                ex2 = re.sub(r"(?<!\w)%s\(" % callee, "gen_a(", ex)
+                if "gen_a(" not in ex2:
+                    raise AnchorLost("arm `%s` does not call %s" % (pat, callee))
+                ex2 = re.sub(r"\bixes\.clone\(\)", "clone_ixes(&ixes)", ex2)
+                kept.append("    %s => { %s }" % (pat, ex2.rstrip(",")))
+            # a scrutinee component `&ixes` binds `ixes: &Vec<Value>` in the arms that name it: clone_ixes(&ixes) on a && is fine for rustc's auto-deref? keep it simple: take by value
+            scrut2 = re.sub(r"\bixes\.clone\(\)", "clone_ixes(&ixes)", scrut)
+        except AnchorLost as e:
+            plan.anchor_errors.append((name, str(e)))
+            continue
+        fn = "fallback_a_" + re.sub(r"\W", "_", stem)
+        items.append("""fn %s(sink: Value, source: Value, ixes: Vec<Value>) -> (r: Result<FxA, E>)
+  ensures r matches Ok(f) ==> f.sink == deref(sink) && f.source == deref(source) && f.ixes@ == ixes@,
+{
+  match %s {
+%s
+    _ => Err(E {}),
+  }
+}
+""" % (fn, scrut2, "\n".join(kept)))
+        fns[fn] = name
+        plan.ob(name, "verus", "proved", functions=["%s: NativeFunctionCompiler::compile fallback (%s)" % (rel, stem)],
+                what="when the sink or the source arrives as a variable reference, the kernel builder receives (deref(sink), deref(source), the indices) in its parameter order (sink, source, indices)")
+    if not fns:
+        return
+    items.append(vlib.verus_canary("canary_fallback_a", "x: u64", []))
+    plan.verus.append(VerusUnit("%s_fallback_assign" % prop.lower(), vlib.verus_file(items), fns, ["canary_fallback_a"]))
+    plan.dropped.append(unit_assign.__doc__.strip())
